@@ -3,6 +3,7 @@ package main
 import (
 	"fmt"
 	"go/ast"
+	"go/parser"
 	"go/token"
 	"regexp"
 )
@@ -69,6 +70,28 @@ func factsReplay() {
 		if nDel != 1 {
 			unrec(g, "evict", fmt.Sprintf("expected exactly one delete in the range over UsedRandom, found %d", nDel))
 		} else {
+			// locals defined (once, with :=) in the loop body stand for their defining expressions
+			if cond != nil && rng != nil {
+				defs := map[string]string{}
+				for _, st := range rng.Body.List {
+					if a, ok := st.(*ast.AssignStmt); ok && a.Tok == token.DEFINE && len(a.Lhs) == 1 && len(a.Rhs) == 1 {
+						if id, ok := a.Lhs[0].(*ast.Ident); ok {
+							defs[id.Name] = "(" + show(a.Rhs[0]) + ")"
+						}
+					}
+				}
+				if len(defs) > 0 {
+					txt := show(cond)
+					for pass := 0; pass < 3; pass++ {
+						for name, rhs := range defs {
+							txt = regexp.MustCompile(`\b`+regexp.QuoteMeta(name)+`\b`).ReplaceAllLiteralString(txt, rhs)
+						}
+					}
+					if e, err := parser.ParseExpr(txt); err == nil {
+						cond = e
+					}
+				}
+			}
 			boolExpr(g, "evict", "(t now : Int)", sv, cond, vars)
 		}
 		evs := events(fn)
